@@ -1,32 +1,35 @@
 #!/bin/bash
-# Confirm sub-agent mutants in a scratch worktree and keep confirmed ones under /verif/seeded/<PID>-m<k>/
-# usage: tools/confirm_mutants.sh C01 C02 ...
+# Confirm sub-agent mutants in a scratch worktree (never in /repo) and keep confirmed ones under /verif/seeded/<PID>-m<k>/
+# usage: tools/confirm_mutants.sh [-s SUFFIX] C11 C12 ...   (reads /tmp/wt/<PID>/MUTANT/m1, m2; SUFFIX e.g. "b" for a second batch -> <PID>-m1b)
+SUF=""
+if [ "$1" = "-s" ]; then SUF="$2"; shift 2; fi
 WT=/tmp/confirm_wt
 BASE=/tmp/wt/baseline_failures.txt
 git -C /repo worktree remove --force $WT 2>/dev/null
-git -C /repo worktree add -q --detach $WT 4ca2aae || exit 2
+git -C /repo worktree add -q --detach $WT HEAD || exit 2
 for pid in "$@"; do
  for k in 1 2; do
   src=/tmp/wt/$pid/MUTANT/m$k
   [ -f $src/patch.diff ] || { echo "$pid m$k: missing"; continue; }
-  dst=/verif/seeded/$pid-m$k
+  dst=/verif/seeded/$pid-m$k$SUF
   git -C $WT checkout -q -- . ; git -C $WT clean -fdq
-  (cd $WT && PYTHONPATH=$WT /venv/bin/python $src/demo.py >/dev/null 2>&1); clean_rc=$?
+  (cd $WT && env -u PYXFORM_VERIF PYTHONPATH=$WT /venv/bin/python $src/demo.py >/dev/null 2>&1); clean_rc=$?
   git -C $WT apply $src/patch.diff || { echo "$pid m$k: patch does not apply"; continue; }
-  (cd $WT && PYTHONPATH=$WT /venv/bin/python -m pytest -q -p no:cacheprovider --timeout=900 -n 8 2>&1 | grep -E '^(FAILED|ERROR)' | grep -v test_validator_update | sort > /tmp/confirm_fail.txt)
+  (cd $WT && env -u PYXFORM_VERIF PYTHONPATH=$WT /venv/bin/python -m pytest -q -p no:cacheprovider --timeout=900 -n 8 2>&1 | grep -E '^(FAILED|ERROR)' | grep -v test_validator_update | sort > /tmp/confirm_fail.txt)
   if diff <(grep -v test_validator_update $BASE) /tmp/confirm_fail.txt >/dev/null; then tests=same; else tests=DIFF; fi
-  (cd $WT && PYTHONPATH=$WT /venv/bin/python $src/demo.py >/tmp/confirm_demo.txt 2>&1); mut_rc=$?
+  (cd $WT && env -u PYXFORM_VERIF PYTHONPATH=$WT /venv/bin/python $src/demo.py >/tmp/confirm_demo.txt 2>&1); mut_rc=$?
   git -C $WT checkout -q -- .
   echo "$pid m$k: tests=$tests demo_clean_rc=$clean_rc demo_mutant_rc=$mut_rc"
   if [ "$tests" = same ] && [ $clean_rc -eq 0 ] && [ $mut_rc -ne 0 ]; then
     mkdir -p $dst && cp $src/patch.diff $src/demo.py $dst/ && cp $src/notes.md $dst/notes.md
-    python3 - "$pid" "$k" "$dst" <<'PY'
-import json,sys
+    python3 - "$pid" "$k$SUF" "$dst" <<'PY'
+import json,sys,subprocess
 pid,k,dst=sys.argv[1:4]
 notes=open(dst+"/notes.md").read()
+head=subprocess.run(["git","-C","/repo","log","--format=%h","-1"],capture_output=True,text=True).stdout.strip()
 json.dump({"property":pid,"id":f"{pid}-m{k}","source":"independent sub-agent given only the property text and a scratch worktree",
  "needs_to_manifest":notes[:1500],
- "confirmed":{"applies_to":"pinned commit 4ca2aae and /repo HEAD","existing_tests":"FAILED/ERROR set identical to baseline (ignoring tests/test_validator_update.py, which flakes on a fixed TCP port)","demo_on_clean_tree":"exit 0","demo_with_patch":"exit non-zero"},
+ "confirmed":{"applies_to":f"/repo HEAD {head}","existing_tests":"FAILED/ERROR set identical to baseline (ignoring tests/test_validator_update.py, which flakes on a fixed TCP port)","demo_on_clean_tree":"exit 0","demo_with_patch":"exit non-zero"},
  "ran":["git apply patch.diff in scratch worktree /tmp/confirm_wt","pytest -q -n 8 (compare FAILED/ERROR set with baseline)","python demo.py with and without the patch"],
  "detected_by":None}, open(dst+"/meta.json","w"), indent=1)
 PY
